@@ -106,7 +106,9 @@ fn render_tokens(ts: &[Tok], rng: &mut Rng) -> String {
         // a sign is unary at the start, after another operator and after `(`; the scanner takes a run of unary
         // signs without blanks between them (blanks are fine before the run and after it)
         let unary = t.t == "op" && (t.s == "+" || t.s == "-") && (k == 0 || matches!(ts[k - 1].t.as_str(), "op" | "lp"));
-        if (prev_word && word) || (!(prev_unary && unary) && rng.chance(1, 5)) { s.push(' '); }
+        // (a number token ending in `e` must not run into a following sign: `1e` `+` `3` is not `1e+3`)
+        let glue = s.ends_with(['e', 'E']) && t.t == "op";
+        if (prev_word && word) || glue || (!(prev_unary && unary) && rng.chance(1, 5)) { s.push(' '); }
         if t.t == "id" && rng.chance(1, 4) { s.push_str(&t.s.to_uppercase()); } else if t.t == "num" && rng.chance(1, 4) { s.push_str(&t.s.replace('e', "E")); } else { s.push_str(&t.s); }
         prev_word = word;
         prev_unary = unary;
